@@ -18,6 +18,12 @@ theorem const_fragment_fits_packet :
     sctpCommonHdr + sctpChunkHdr + sctpDataHdr + sctpMaxPayload ≤ sctpMaxPacket ∧
     (sctpChunkHdr + sctpDataHdr + sctpMaxPayload) % 4 = 0 ∧ sctpChunkHdr = 4 := by decide
 
+/-- generated-constant obligation: the literals of the sender model (`SctpSend.lean`, `SctpSack.lean`)
+are the source's: default burst of 4 packets, at most 1000 chunks per `transmit()`, 50 ms between
+fast retransmissions of one chunk -/
+theorem const_sender_literals :
+    sctpDefaultBurstPackets = 4 ∧ sctpBatchCap = 1000 ∧ sctpFastRtxCooldownMs = 50 := by decide
+
 /-- a DATA chunk whose user data is at most `DEFAULT_MAX_PAYLOAD_SIZE` fits one packet -/
 theorem data_chunk_fits (c : DChunk) (h : c.data.length ≤ sctpMaxPayload) :
     sctpCommonHdr + (encData c).length ≤ sctpMaxPacket := by
